@@ -514,10 +514,9 @@ impl Run {
             scope.spawn(|| {
                 while !done.load(Ordering::SeqCst) {
                     std::thread::sleep(Duration::from_millis(200));
-                    let now = now_ms();
                     for p in progress.iter() {
-                        let st = p.started_ms.load(Ordering::SeqCst);
-                        if st != 0 && now.saturating_sub(st) > wd_secs * 1000 {
+                        let Some((wall, cpu)) = p.elapsed() else { continue };
+                        if stalled(wall, cpu, wd_secs) {
                             let case = p.current.lock().unwrap().clone();
                             if let Some(c) = case {
                                 *hang.lock().unwrap() = Some(c);
@@ -626,13 +625,17 @@ impl Run {
             .stderr(std::process::Stdio::null())
             .spawn()
             .expect("spawn child");
-        let limit = Duration::from_secs(wd_secs.max(20) * 3);
+        // the isolated re-run gets three times the CPU budget (and the same generous wall-clock backstop)
+        let limit = wd_secs.max(20) * 3;
         let t0 = Instant::now();
+        let pid = child.id();
         let reproduced = loop {
             match child.try_wait() {
                 Ok(Some(_st)) => break false,
                 Ok(None) => {
-                    if t0.elapsed() > limit {
+                    let wall = t0.elapsed().as_millis() as u64;
+                    let cpu = process_cpu_ms(pid).unwrap_or(wall);
+                    if stalled(wall, cpu, limit) {
                         let _ = child.kill();
                         let _ = child.wait();
                         break true;
@@ -867,7 +870,75 @@ impl Run {
 #[derive(Default)]
 struct ShardProgress {
     started_ms: AtomicU64,
+    /// CPU time of the worker thread when the current case started, and the worker's pthread handle:
+    /// the stall criterion is CPU time spent in the case, so that a loaded machine cannot trip it
+    cpu_start_ms: AtomicU64,
+    thread: AtomicU64,
     current: Mutex<Option<String>>,
+}
+
+impl ShardProgress {
+    fn begin(&self) {
+        self.thread.store(unsafe { libc::pthread_self() } as u64, Ordering::SeqCst);
+        self.cpu_start_ms.store(thread_cpu_ms_self(), Ordering::SeqCst);
+        self.started_ms.store(now_ms(), Ordering::SeqCst);
+    }
+    fn end(&self) {
+        self.started_ms.store(0, Ordering::SeqCst);
+    }
+    /// (wall ms, cpu ms) spent in the current case, if one is running
+    fn elapsed(&self) -> Option<(u64, u64)> {
+        let st = self.started_ms.load(Ordering::SeqCst);
+        if st == 0 {
+            return None;
+        }
+        let wall = now_ms().saturating_sub(st);
+        let t = self.thread.load(Ordering::SeqCst);
+        let cpu = thread_cpu_ms_of(t as libc::pthread_t).map(|c| c.saturating_sub(self.cpu_start_ms.load(Ordering::SeqCst))).unwrap_or(wall);
+        // re-check that the same case is still running
+        if self.started_ms.load(Ordering::SeqCst) != st {
+            return None;
+        }
+        Some((wall, cpu))
+    }
+}
+
+fn ts_ms(ts: &libc::timespec) -> u64 {
+    ts.tv_sec as u64 * 1000 + ts.tv_nsec as u64 / 1_000_000
+}
+
+fn thread_cpu_ms_self() -> u64 {
+    let mut ts = libc::timespec { tv_sec: 0, tv_nsec: 0 };
+    unsafe { libc::clock_gettime(libc::CLOCK_THREAD_CPUTIME_ID, &mut ts) };
+    ts_ms(&ts)
+}
+
+fn thread_cpu_ms_of(t: libc::pthread_t) -> Option<u64> {
+    let mut clk: libc::clockid_t = 0;
+    let mut ts = libc::timespec { tv_sec: 0, tv_nsec: 0 };
+    unsafe {
+        if libc::pthread_getcpuclockid(t, &mut clk) != 0 || libc::clock_gettime(clk, &mut ts) != 0 {
+            return None;
+        }
+    }
+    Some(ts_ms(&ts))
+}
+
+/// CPU time (user + system, ms) consumed so far by another process, from /proc
+fn process_cpu_ms(pid: u32) -> Option<u64> {
+    let txt = std::fs::read_to_string(format!("/proc/{pid}/stat")).ok()?;
+    let rest = &txt[txt.rfind(')')? + 1..];
+    let f: Vec<&str> = rest.split_whitespace().collect();
+    // after the command name: state is field 0, utime field 11, stime field 12
+    let ticks: u64 = f.get(11)?.parse::<u64>().ok()? + f.get(12)?.parse::<u64>().ok()?;
+    let hz = unsafe { libc::sysconf(libc::_SC_CLK_TCK) }.max(1) as u64;
+    Some(ticks * 1000 / hz)
+}
+
+/// a case is stalled when it has used `wd_secs` of CPU time, or (threads blocked without using CPU)
+/// twenty times that much wall-clock time and at least ten minutes
+fn stalled(wall_ms: u64, cpu_ms: u64, wd_secs: u64) -> bool {
+    cpu_ms > wd_secs * 1000 || wall_ms > (wd_secs * 20).max(600) * 1000
 }
 
 fn now_ms() -> u64 {
@@ -955,7 +1026,7 @@ fn run_shard<S: SubCheck>(
         let case = tree.current();
         if track {
             *progress.current.lock().unwrap() = serde_json::to_string(&case).ok();
-            progress.started_ms.store(now_ms(), Ordering::SeqCst);
+            progress.begin();
         }
         if guard {
             crash::set_current(property, name, &serde_json::to_string(&case).unwrap_or_default());
@@ -963,7 +1034,7 @@ fn run_shard<S: SubCheck>(
         let mut obs = Obs::default();
         let r = run_case(s, &case, &mut obs);
         if track {
-            progress.started_ms.store(0, Ordering::SeqCst);
+            progress.end();
         }
         res.evaluations += 1;
         res.comparisons += obs.comparisons;
@@ -997,12 +1068,12 @@ fn run_shard<S: SubCheck>(
                     }
                     if track {
                         *progress.current.lock().unwrap() = serde_json::to_string(&cur).ok();
-                        progress.started_ms.store(now_ms(), Ordering::SeqCst);
+                        progress.begin();
                     }
                     let mut o = Obs::default();
                     let rr = run_case(s, &cur, &mut o);
                     if track {
-                        progress.started_ms.store(0, Ordering::SeqCst);
+                        progress.end();
                     }
                     match rr {
                         Err(f) if f.key == fail.key => {
